@@ -45,7 +45,17 @@ state shares no storage with another state or a caller's dictionary, and (probab
 a larger / a smaller model, truncated, filled with garbage or deleted, every state of the history must be unchanged, and the file
 is put back byte for byte.  Guard (never a verdict): /proc/self/maps tells whether a tensor of the loaded object lies inside a
 memory mapping of a file; if so the events that shorten the file run in a forked child (reading such a tensor afterwards is a
-SIGBUS, reported as the failing input) and a random history is abandoned after its probe."""
+SIGBUS, reported as the failing input) and a random history is abandoned after its probe.
+
+Seed round 7 (C11g): WHICH KEYS the saved dictionary has.  Every comparison of a loaded dictionary is by exact key set (nothing
+missing, nothing added; shape, dtype, content per matrix).  Until this round every generated dictionary either contained X, Y, Z
+or lacked defaults only because the CONSTRUCTOR was given such a dictionary - a constructor that fills in missing defaults hid
+the sub-case from load and autoload alike.  unitary_keyset_histories: 18 recipes (keys absent at construction; deleted, renamed,
+overridden on the live attribute; the attribute replaced by a new dictionary; clear() + one user key; save - edit - save again)
+x 2 state types, each file reloaded by load (str / Path / file object; receivers with default / superset / disjoint dictionaries)
+and autoload (str / Path / file object - the last fails on the unchanged tree for every dictionary and is only counted), plus a
+second generation (the loaded object saved and auto-loaded again).  Random histories: edit_keyset (delete / rename / replace
+attribute) as an operation and on 30% of the initial states; the model is restarted from the real heap after it."""
 import os, io, copy, time, pathlib
 import numpy as np
 
@@ -59,7 +69,10 @@ RULE = ("histories of <= 12 (quick) / <= 25 (thorough) operations from a weighte
         "dictionary, followed by a successful load/autoload of that file; "
         "+ 15 fixed afterlife histories (3 types x load/autoload x str/Path/file object) with 7 later file events each "
         "(save-again with swapped unitary, larger model, smaller model, metadata-only, truncate, garbage, delete) and a "
-        "file-event probe after about every second load/autoload of a random history")
+        "file-event probe after about every second load/autoload of a random history"
+        " + 36 fixed key-set histories (2 types x 18 ways a saved dictionary comes to LACK / rename / replace default keys, at "
+        "construction or on the live attribute; each reloaded by load and autoload x str / Path / file object and compared by exact key "
+        "set); random histories delete / rename keys and replace the dictionary attribute (30% of states start that way)")
 ASSUMPTIONS = ["torch.save/torch.load round-trip tensors and plain containers bit-identically (observed on random tensors in every run)",
                "metadata keys are strings (data.update(**metadata) requires it); random histories put no dict of tensors under a reserved name (the fixed refusal cases do)",
                "states of one history do not share network objects (sharing is C20's subject)",
@@ -297,8 +310,37 @@ def make_state(ctx, kind, nv, nh, na, shared=None, R=None):
         s = DensityMatrix(nv, nh, na, unitary_dict=ud, gpu=False)
     if ud is not None and R is not None and not any(ud is d for d in R.caller_uds):
         R.caller_uds.append(ud)
+    if kind != 0 and ctx.rng.random() < 0.3:                # seed round 7: a default key removed / renamed AFTER construction
+        ctx.count("state starts with an edited key set:" + edit_keyset(ctx, s).split(" ")[0])
     randomise_inplace(ctx, s)
     return s
+
+
+def edit_keyset(ctx, s):
+    """The user changes WHICH keys the live dictionary of s has (never the caller's constructor argument: the constructors copy
+    it): a key is deleted (defaults preferred), renamed, or the attribute is replaced by a new dictionary that holds a subset of
+    the old entries (plus, sometimes, a new one).  At least one key remains.  Returns a description."""
+    rng = ctx.rng
+    u = s.unitary_dict
+    keys = sorted(u.keys())
+    defaults = [k for k in keys if k in ("X", "Y", "Z")]
+    r = rng.random()
+    if r < 0.4 and len(keys) > 1:
+        k = str(rng.choice(defaults if defaults and rng.random() < 0.8 else keys))
+        del u[k]
+        return "delete %s" % k
+    if r < 0.65:
+        k = str(rng.choice(defaults if defaults and rng.random() < 0.8 else keys))
+        new = k.lower() if k.lower() != k and k.lower() not in u else k + "r"
+        u[new] = u.pop(k)
+        return "rename %s -> %s" % (k, new)
+    keep = [k for k in keys if rng.random() < 0.5] or [keys[int(rng.integers(0, len(keys)))]]
+    nd = {k: u[k] for k in keep}
+    extra = rng.random() < 0.5
+    if extra:
+        nd["T%d" % rng.integers(0, 3)] = rand_unitary(ctx)
+    s.unitary_dict = nd
+    return "replace attribute by {%s}" % ", ".join(sorted(nd))
 
 
 FALSY = [None, 0, "", False, [], {}, 0.0]
@@ -430,8 +472,21 @@ def check_loaded(ctx, what, snap, s, case, require_ud):
     ctx.require(what + ": parameters bit-identical to those at save time", ok, case)
     if require_ud and snap["ud"] is not None and hasattr(s, "unitary_dict"):
         u = s.unitary_dict
-        okd = isinstance(u, dict) and set(u.keys()) == set(snap["ud"].keys()) and all(torch.equal(u[k], snap["ud"][k]) for k in u)
-        ctx.require(what + ": unitary dictionary equal key by key", okd, case)
+        want = snap["ud"]
+        same_keys = isinstance(u, dict) and set(u.keys()) == set(want.keys())       # the exact KEY SET: nothing missing, nothing added
+        okd = same_keys and all(isinstance(u[k], torch.Tensor) and u[k].shape == want[k].shape and u[k].dtype == want[k].dtype
+                                and torch.equal(u[k], want[k]) for k in want)
+        detail = None
+        if not okd:
+            have = sorted(map(str, u.keys())) if isinstance(u, dict) else repr(type(u))
+            detail = {"saved keys": sorted(map(str, want.keys())), "keys after " + what.split(" ")[0]: have}
+            if same_keys:
+                detail["matrices that differ"] = [str(k) for k in want if not (isinstance(u[k], torch.Tensor) and u[k].shape == want[k].shape
+                                                                                and torch.equal(u[k], want[k]))]
+            else:
+                detail["added"] = sorted(str(k) for k in u if k not in want) if isinstance(u, dict) else None
+                detail["missing"] = sorted(str(k) for k in want if k not in u) if isinstance(u, dict) else None
+        ctx.require(what + ": unitary dictionary equal key by key", okd, case, detail)
 
 
 def one_history(ctx, hid, nops):
@@ -638,7 +693,13 @@ def one_history(ctx, hid, nops):
                 name = str(rng.choice(sorted(s.unitary_dict.keys())))     # override an existing unitary
             u = rand_unitary(ctx)
             has_d = hasattr(s, "unitary_dict") and isinstance(s.unitary_dict, dict) and bool(s.unitary_dict)
-            if has_d and rng.random() < 0.4:                # an existing unitary is edited IN PLACE (same tensor object)
+            if has_d and rng.random() < 0.45:               # seed round 7: the KEY SET shrinks / is renamed / the attribute is replaced
+                how = edit_keyset(ctx, s)
+                ctx.count("unitary key set edited:" + how.split(" ")[0])
+                case["ops"].append("edit_unitary_keyset(%d: %s)" % (sid, how))
+                resync()                                    # the Store model has no operation for it: restarted from the real heap
+                op = None
+            elif has_d and rng.random() < 0.4:              # an existing unitary is edited IN PLACE (same tensor object)
                 name = str(rng.choice(sorted(s.unitary_dict.keys())))
                 t_ = s.unitary_dict[name]
                 if rng.random() < 0.5:
@@ -1072,6 +1133,177 @@ def unitary_dict_histories(ctx):
                     check_loaded(ctx, "load", snap_s, t, case, True)
                 ctx.count("fixed_unitary_dict_load")
                 ctx.traces += 1
+
+
+def keyset_recipes(ctx):
+    """Seed round 7 (C11g): how the dictionary of the SAVED model came to have its key set.  Every recipe yields a dictionary
+    that is NOT 'the defaults, possibly plus more': a default key is absent / removed / renamed / replaced, at construction
+    time or on the live attribute afterwards.  (name, dictionary handed to the constructor or None, edit of the built state or None)"""
+    from qucumber.utils import unitaries
+    d = unitaries.create_dict
+    ru = lambda: rand_unitary(ctx)
+
+    def drop(*names):
+        def f(s):
+            for n in names:
+                del s.unitary_dict[n]
+        return f
+
+    def replace_attr(make):
+        def f(s):
+            s.unitary_dict = make(s)
+        return f
+
+    def rename(old, new):
+        def f(s):
+            s.unitary_dict[new] = s.unitary_dict.pop(old)
+        return f
+
+    def clear_then_add(s):
+        s.unitary_dict.clear()
+        s.unitary_dict["H"] = ru()
+
+    def override_and_drop(s):
+        s.unitary_dict["Z"] = ru()
+        del s.unitary_dict["X"]
+
+    return [
+        # ---- at construction
+        ("constructor: {X, Q} (no Y, Z)", lambda: {"X": d()["X"], "Q": ru()}, None),
+        ("constructor: {Z, H, T} (no X, Y)", lambda: {"Z": d()["Z"], "H": ru(), "T": ru()}, None),
+        ("constructor: only user keys {H, T}", lambda: {"H": ru(), "T": ru()}, None),
+        ("constructor: one key {Y}", lambda: {"Y": d()["Y"]}, None),
+        ("constructor: defaults renamed {x, y, z}", lambda: {k.lower(): v for k, v in d().items()}, None),
+        ("constructor: {X, Z} with another matrix under Z, plus U0", lambda: {"X": d()["X"], "Z": ru(), "U0": ru()}, None),
+        # ---- on the live attribute, after construction with the default dictionary
+        ("del unitary_dict[Y]", None, drop("Y")),
+        ("del unitary_dict[X], [Y] (Z left)", None, drop("X", "Y")),
+        ("del unitary_dict[Z]", None, drop("Z")),
+        ("attribute replaced by {Z, H, T}", None, replace_attr(lambda s: {"Z": d()["Z"], "H": ru(), "T": ru()})),
+        ("attribute replaced by only a user key {H}", None, replace_attr(lambda s: {"H": ru()})),
+        ("attribute replaced by a copy without X", None, replace_attr(lambda s: {k: v for k, v in s.unitary_dict.items() if k != "X"})),
+        ("X renamed to Xr (pop + insert)", None, rename("X", "Xr")),
+        ("Y renamed to y", None, rename("Y", "y")),
+        ("clear() then one user key", None, clear_then_add),
+        ("Z overridden by another matrix and X removed", None, override_and_drop),
+        # ---- user-extended at construction, a default removed afterwards
+        ("constructor: defaults + H; then del Y", lambda: d(H=ru()), drop("Y")),
+        ("constructor: {X, Q}; then X renamed to Q2", lambda: {"X": d()["X"], "Q": ru()}, rename("X", "Q2")),
+    ]
+
+
+def unitary_keyset_histories(ctx):
+    """Seed round 7 (C11g), always executed.  For the two state types with a unitary dictionary and every recipe of
+    keyset_recipes: the state is saved (str / Path / file object in turn, metadata non-empty), then reloaded through EVERY
+    entry point and location form - load(str), load(Path), load(file object) into receivers whose own dictionaries are the
+    defaults / a superset / disjoint from the saved one, and autoload(str), autoload(Path), autoload(file object; fails on the
+    unchanged tree for every dictionary: histogram only) - and each loaded object must have EXACTLY the saved key set with equal matrices; so
+    must the file (torch.load), the source after the saves, and a second generation (the loaded object saved again and auto-loaded).
+    One more history per recipe: the default-dictionary state is saved to f FIRST, the recipe is applied, the state is saved
+    to f again: the reload shows the later key set."""
+    import torch
+    from qucumber.nn_states import ComplexWaveFunction, DensityMatrix
+    from qucumber.utils import unitaries
+    recipes = keyset_recipes(ctx)
+    folder = os.path.join(ctx.scratch, "keysets")
+    os.makedirs(folder, exist_ok=True)
+    for ci, (cls, args) in enumerate(((ComplexWaveFunction, (2, 3)), (DensityMatrix, (2, 3, 1)))):
+        for ri, (name, at_ctor, post) in enumerate(recipes):
+            ctx.torch_seed()
+            given = at_ctor() if at_ctor is not None else None
+            given_before = None if given is None else {k: v.clone() for k, v in given.items()}
+            ok, s = ctx.call("constructor", {"state": cls.__name__, "saved_dictionary": name}, lambda: cls(*args, unitary_dict=given, gpu=False))
+            if not ok:
+                continue
+            randomise_inplace(ctx, s)
+            f = os.path.join(folder, "%s_%d.pt" % (cls.__name__, ri))
+            two_saves = post is not None and (ri + ci) % 2 == 0
+            hist = ["s = %s(unitary_dict=%s)" % (cls.__name__, "None" if given is None else "{%s}" % ", ".join(sorted(given)))]
+            case = {"history": hist, "state": cls.__name__, "saved_dictionary": name, "seed": ctx.seed}
+            if two_saves:                                   # the file first holds the DEFAULT dictionary, then is written again
+                hist.append("s.save(f)")
+                if not ctx.call("first save", case, s.save, f, {"gen": 0})[0]:
+                    continue
+            if post is not None:
+                post(s)
+                hist.append(name)
+            save_form = ("str", "Path", "file object")[(ri + ci) % 3]
+            hist.append("s.save(f as %s, {'run': ..})" % save_form)
+            snap = snapshot(s)
+            case["saved_keys"] = sorted(snap["ud"])
+            ctx.case(case, nontrivial=True)
+            ctx.count("keyset:saved dictionary lacks a default key" if {"X", "Y", "Z"} - set(snap["ud"]) else "keyset:saved dictionary has X, Y, Z")
+            md = {"run": ri, "t": torch.tensor(ctx.rng.normal(size=2))}
+            if save_form == "file object":
+                def do_save():
+                    buf = io.BytesIO()
+                    s.save(buf, md)
+                    with open(f, "wb") as fh:
+                        fh.write(buf.getvalue())
+            else:
+                def do_save():
+                    s.save(f if save_form == "str" else pathlib.Path(f), md)
+            if not ctx.call("save", case, do_save)[0]:
+                continue
+            ctx.require("save leaves the state's parameters and unitary dictionary unchanged",
+                        deep_eq(snapshot(s)["nets"], snap["nets"]) and deep_eq(snapshot(s)["ud"], snap["ud"]), case)
+            if given is not None:
+                ctx.require("a constructor and a save leave the dictionary the caller passed to the constructor unchanged",
+                            set(given) == set(given_before) and all(torch.equal(given[k], given_before[k]) for k in given), case)
+            okr, raw = ctx.call("torch.load of the written file", case, torch.load, f)
+            if okr:
+                fu = raw.get("unitary_dict") if isinstance(raw, dict) else None
+                ctx.require("the written file holds every metadata key/value, every network's state dict and unitary_dict",
+                            isinstance(fu, dict) and set(fu) == set(snap["ud"]) and all(torch.equal(fu[k], snap["ud"][k]) for k in fu)
+                            and all(k in raw and deep_eq(raw[k], v) for k, v in md.items()), case,
+                            {"saved keys": sorted(snap["ud"]), "keys in the file": sorted(map(str, fu)) if isinstance(fu, dict) else repr(fu)[:80]})
+
+            def receiver(kind_):
+                if kind_ == "default dictionary":
+                    return cls(*args, gpu=False)
+                if kind_ == "superset of the saved keys":
+                    return cls(*args, unitary_dict=dict(unitaries.create_dict(W=rand_unitary(ctx)), **{k: rand_unitary(ctx) for k in snap["ud"]}), gpu=False)
+                return cls(*args, unitary_dict={"R1": rand_unitary(ctx), "R2": rand_unitary(ctx)}, gpu=False)   # disjoint from the saved keys
+            entries = [("autoload", "str", None), ("autoload", "Path", None), ("autoload", "file object", None),
+                       ("load", "str", "default dictionary"), ("load", "Path", "superset of the saved keys"),
+                       ("load", "file object", "disjoint keys")]
+            for how, form, rk in entries:
+                ecase = dict(case, entry="%s(f as %s)" % (how, form) + ("" if rk is None else " into a state with " + rk))
+                try:
+                    if how == "load":
+                        B = receiver(rk)
+                        if form == "file object":
+                            with open(f, "rb") as fh:
+                                B.load(fh)
+                        else:
+                            B.load(f if form == "str" else pathlib.Path(f))
+                    elif form == "file object":
+                        with open(f, "rb") as fh:
+                            B = cls.autoload(fh, gpu=False)
+                    else:
+                        B = cls.autoload(f if form == "str" else pathlib.Path(f), gpu=False)
+                except Exception as e:
+                    if how == "autoload" and form == "file object":
+                        # autoload reads the location twice: a file object is at its end the second time.  Fails on the unchanged
+                        # tree for EVERY dictionary (DESIGN 11: outside the quantifier) - information, never a verdict
+                        ctx.count("keyset:autoload(file object) raised %s (unchanged-tree behaviour, not judged)" % type(e).__name__)
+                        continue
+                    ctx.require("%s of a file saved by the same state type and sizes is accepted (raised %s)" % (how, type(e).__name__), False, ecase, repr(e)[:300])
+                    continue
+                ctx.count("keyset:%s(%s)" % (how, form))
+                if how == "autoload":
+                    ctx.require("autoload rebuilds the saved architecture", compatible(snap, B) and set(B.networks) == set(snap["nets"]), ecase)
+                    if not compatible(snap, B):
+                        continue
+                check_loaded(ctx, how, snap, B, ecase, True)
+                if (how, form) in (("load", "str"), ("autoload", "str")):      # second generation: what was loaded is saved and auto-loaded again
+                    f2 = f + ".gen2"
+                    ok2, C = ctx.call("save of the loaded object + autoload", ecase, lambda: (B.save(f2, {"gen": 2}), cls.autoload(f2, gpu=False))[1])
+                    if ok2 and compatible(snap, C):
+                        check_loaded(ctx, "autoload (of the loaded object saved again)", snap, C, dict(ecase, second_generation=True), True)
+            ctx.require("save leaves the state's parameters and unitary dictionary unchanged",
+                        deep_eq(snapshot(s)["nets"], snap["nets"]) and deep_eq(snapshot(s)["ud"], snap["ud"]), dict(case, after="all loads"))
+            ctx.traces += 1
 
 
 def shared_and_inplace_histories(ctx):
@@ -1678,6 +1910,7 @@ def run(ctx):
     replace_histories(ctx)
     metadata_value_histories(ctx)
     unitary_dict_histories(ctx)
+    unitary_keyset_histories(ctx)
     n = 300 if ctx.thorough else 150
     maxops = 25 if ctx.thorough else 12
     for hid in range(n):
